@@ -164,6 +164,7 @@ impl Exec {
                 let v = self.versions.len();
                 self.versions.push(Arc::new(ctx.pend.clone()));
                 self.allowed.insert(v);
+                self.push_hook_state();
                 self.disk.marker(Marker::CommitRequested { v: v as u32, durable: ctx.durable });
                 self.stats.api_calls += 1;
                 let r = catch_unwind(AssertUnwindSafe(|| txn.commit()));
